@@ -159,9 +159,14 @@ func VerifC06StreamHandler() {
 	final := primary
 	// the replica's announcement
 	posMap := map[string]ltx.Pos{}
-	switch rt.Choose("client.state", 3) {
+	state := rt.Choose("client.state", 5)
+	switch state {
 	case 1:
 		posMap["db"] = chain[1] // on the chain, one behind
+	case 3:
+		posMap["db"] = primary // caught up
+	case 4:
+		posMap["db"] = ltx.Pos{TXID: primary.TXID, PostApplyChecksum: primary.PostApplyChecksum ^ 2} // same TXID, another history
 	case 2:
 		posMap["gone"] = ltx.Pos{TXID: 7, PostApplyChecksum: ltx.ChecksumFlag | 9} // a database the primary does not have
 	}
@@ -241,6 +246,8 @@ func VerifC06StreamHandler() {
 	}
 	if filter == "filter=other" {
 		rt.Check(nltx == 0, "a filtered-out database is not sent at all")
+	} else if state == 3 && !lateCommit {
+		rt.Check(nltx == 0, "a replica already at the primary's position is sent no transaction data")
 	} else {
 		rt.Check(nltx >= 1, "the data the replica lacks is sent")
 		last := len(hdrs) - 1
@@ -249,9 +256,12 @@ func VerifC06StreamHandler() {
 	for i := range hdrs {
 		rt.Check(ltxFor[i] == "db", "transaction data is labelled with its database")
 	}
+	if state == 4 && filter != "filter=other" {
+		rt.Check(nltx >= 1 && hdrs[0].IsSnapshot() && (readyAt > 0 && order[0] == "ltx"), "C06: a replica at the primary's TXID with another checksum is sent a snapshot before it is told it is ready")
+	}
 	if nltx == 1 {
-		if _, onChain := posMap["db"]; onChain {
-			rt.Check(!hdrs[0].IsSnapshot() && hdrs[0].MinTXID == chain[1].TXID+1 && hdrs[0].PreApplyChecksum == chain[1].PostApplyChecksum, "a replica on the chain gets the next transaction, extending exactly its position")
+		if at, onChain := posMap["db"]; onChain && state != 4 {
+			rt.Check(!hdrs[0].IsSnapshot() && hdrs[0].MinTXID == at.TXID+1 && hdrs[0].PreApplyChecksum == at.PostApplyChecksum, "a replica on the chain gets the next transaction, extending exactly its position")
 		} else {
 			rt.Check(hdrs[0].IsSnapshot(), "a replica without the database gets a snapshot")
 		}
